@@ -11,7 +11,7 @@
 //          S<seed>:<permille>     real threads (OpenMP), no scheduler; random sched_yield at the hook points
 // stdout per executed schedule: "J <job>" / "D <schedule executed>" / (mode A) "S ..." state lines /
 //   "V <event>" API events in history order / "LIVELOCK" / "ERR .." / "E"
-#include "coop.h"
+#include "coop_be.h"
 #include "souffle/datastructure/Brie.h"
 #include <algorithm>
 #include <atomic>
@@ -31,7 +31,7 @@
 #define MODEL_LW 1
 #endif
 using namespace souffle;
-static Coop* g = nullptr;
+static CoopBE* g = nullptr;
 static long gLine = 0;  // input line of the running job
 static std::atomic<unsigned> stressPermille{0};
 static std::atomic<unsigned long long> stressSeed{0};
@@ -66,43 +66,6 @@ struct Rng {
         return (unsigned)((st >> 33) % n);
     }
 };
-
-// ---------------------------------------------------------------- schedule controller (shared by both modes)
-struct Sched {
-    std::string spec;
-    std::vector<int> executed;  // thread (1-based) per step
-};
-// runs the threads of `coop` according to spec; afterStep(t,k) is called after every step of the schedule proper.
-// Returns false on livelock.  prefix/alternatives support the systematic mode.
-template <typename F>
-static bool runExplicit(Coop& coop, int n, const std::vector<int>& sched, bool lenient, F afterStep, std::vector<int>& executed,
-        std::string& err) {
-    int k = 0;
-    for (int t : sched) {
-        k++;
-        if (t < 1 || t > n || !coop.step(t - 1)) {
-            if (lenient) continue;
-            err = "thread " + std::to_string(t) + " already finished at step " + std::to_string(k);
-            return true;
-        }
-        executed.push_back(t);
-        afterStep(t - 1, k);
-    }
-    return true;
-}
-static bool drain(Coop& coop, int n, std::vector<int>& executed) {
-    bool any = true;
-    long guard = 0;
-    while (any && ++guard < 200000) {
-        any = false;
-        for (int t = 0; t < n; t++)
-            if (coop.step(t)) {
-                any = true;
-                executed.push_back(t + 1);
-            }
-    }
-    return guard < 200000;
-}
 
 // ---------------------------------------------------------------- mode A: SparseBitMap<MODEL_BITS> vs spec/BrieImpl.tla
 using BM = SparseBitMap<MODEL_BITS>;
@@ -146,7 +109,7 @@ static void runA(long job, const std::string& progStr, const std::string& schedS
     if (!progStr.empty() && progStr.back() == ';') progs.push_back("");
     int n = (int)progs.size();
     BM bm;
-    Coop coop(n);
+    CoopBE coop(n);
     g = &coop;
     std::vector<std::string> res(n, "");
     std::vector<int> ip(n, 1);
@@ -194,15 +157,30 @@ static void runA(long job, const std::string& progStr, const std::string& schedS
         std::printf(" %d %s\n", treeLevels, tree.c_str());
     };
     std::printf("J %ld %ld\n", job, gLine);
-    for (int t = 0; t < n; t++) coop.step(t);
+    coop.start();
     dump(-1, 0);
-    std::vector<int> sched, executed;
+    std::vector<int> sched;
     for (auto& x : split(schedStr, ','))
         if (!x.empty()) sched.push_back(std::stoi(x));
     std::string err;
-    runExplicit(coop, n, sched, false, dump, executed, err);
+    std::size_t k = 0;
+    coop.policy = [&](int from) {
+        if (from >= 0) dump(from, (int)k);
+        if (k >= sched.size()) return -1;
+        int t = sched[k++] - 1;
+        if (t < 0 || t >= n || coop.done[t]) {
+            err = "thread " + std::to_string(t + 1) + " already finished at step " + std::to_string(k);
+            return -1;
+        }
+        return t;
+    };
+    coop.run();
     if (!err.empty()) std::printf("ERR %s\n", err.c_str());
-    if (!drain(coop, n, executed)) std::printf("LIVELOCK\n");
+    if (!coop.drain(200000)) {
+        std::printf("LIVELOCK\nE\n");
+        std::fflush(stdout);
+        std::_Exit(3);
+    }
     dump(-1, -1);
     g = nullptr;
     for (auto& x : th) x.join();
@@ -372,7 +350,7 @@ struct TrieJob {
     template <typename Choose>
     void execCoop(long job, Choose choose, const std::string& label) {
         Trie<D> trie;
-        Coop coop(n);
+        CoopBE coop(n);
         g = &coop;
         std::vector<std::string> events;
         std::vector<std::thread> th;
@@ -394,26 +372,28 @@ struct TrieJob {
                 });
             });
         std::vector<int> executed;
-        for (int t = 0; t < n; t++) coop.step(t);
+        coop.start();
         int cur = -1;
         long k = 0;
         bool live = true;
-        while (true) {
+        coop.policy = [&](int from) {
+            (void)from;
             std::vector<int> enabled;
             for (int t = 0; t < n; t++)
                 if (!coop.done[t]) enabled.push_back(t);
-            if (enabled.empty()) break;
+            if (enabled.empty()) return -1;
             int t = choose(k, enabled, cur, coop);
-            if (t < 0) break;
-            if (!coop.step(t)) continue;
+            if (t < 0) return -1;
             executed.push_back(t + 1);
             cur = t;
             if (++k > 400000) {
                 live = false;
-                break;
+                return -1;
             }
-        }
-        if (live) live = drain(coop, n, executed);
+            return t;
+        };
+        coop.run();
+        if (live) live = coop.drain(200000, [&](int t) { executed.push_back(t + 1); });
         std::printf("J %ld %ld\nD %s steps=%zu\n", job, gLine, label.c_str(), executed.size());
         if (!live) {
             std::printf("LIVELOCK\nE\n");
@@ -476,7 +456,7 @@ struct TrieJob {
             long steps = f.size() > 1 ? std::stol(f[1]) : 50;
             unsigned stay = f.size() > 2 ? (unsigned)std::stoul(f[2]) : 0;
             execCoop(job++,
-                    [&](long k, const std::vector<int>& en, int cur, Coop&) {
+                    [&](long k, const std::vector<int>& en, int cur, CoopBE&) {
                         if (k >= steps) return -1;
                         if (cur >= 0 && std::find(en.begin(), en.end(), cur) != en.end() && rng.next(100) < stay) return cur;
                         return en[rng.next((unsigned)en.size())];
@@ -507,7 +487,7 @@ struct TrieJob {
                 std::string label = "P";
                 for (auto& d : devs) label += " " + std::to_string(d.k) + ">" + std::to_string(d.t + 1);
                 execCoop(job++,
-                        [&](long k, const std::vector<int>& en, int cur, Coop& coop) {
+                        [&](long k, const std::vector<int>& en, int cur, CoopBE& coop) {
                             int pick = -1;
                             for (auto& d : devs)
                                 if (d.k == k && std::find(en.begin(), en.end(), d.t) != en.end()) pick = d.t;
@@ -552,7 +532,7 @@ struct TrieJob {
             for (auto& x : split(schedStr, ','))
                 if (!x.empty()) sched.push_back(std::stoi(x));
             execCoop(job++,
-                    [&](long k, const std::vector<int>& en, int, Coop&) {
+                    [&](long k, const std::vector<int>& en, int, CoopBE&) {
                         if (k >= (long)sched.size()) return -1;
                         int t = sched[k] - 1;
                         return std::find(en.begin(), en.end(), t) != en.end() ? t : en[0];
